@@ -3,6 +3,7 @@ package server
 // Simulated network: byte-stream connections whose delivery the scheduler owns.
 
 import (
+	"bytes"
 	"context"
 	"errors"
 	"fmt"
@@ -222,6 +223,16 @@ func (e *connEnd) deliver() {
 	if e.onData != nil && !s.cutActors {
 		mode = cutWhole
 	}
+	// SERVER/INFO replies embed process memory statistics whose length varies
+	// from execution to execution: deliver them whole and keep sizes out of the log
+	volatile := false
+	for _, ch := range e.inflight {
+		if bytes.Contains(ch, []byte("heap_size")) {
+			volatile = true
+			mode = cutWhole
+			break
+		}
+	}
 	switch mode {
 	case cutWhole:
 	case cutBytes:
@@ -268,7 +279,7 @@ func (e *connEnd) deliver() {
 		e.cond.Broadcast()
 	}
 	s.mu.Unlock()
-	if e.onData != nil && n == total {
+	if (e.onData != nil || volatile) && n == total {
 		// replies may embed process statistics (SERVER): sizes are not logged
 		s.logf("  delivered all")
 	} else {
